@@ -519,7 +519,8 @@ func (s *Sched) schedule() int {
 		key = mix(key, s.th[t].hash)
 	}
 	if s.cfg.SaltPreempt {
-		key = mix(key, uint64(s.preempts)+77)
+		// bounded search: the budget left and the thread that may continue for free are part of the state
+		key = mix(key, uint64(s.preempts)*8+uint64(next)+77)
 	}
 	s.res.FinalKey = key
 	if s.cfg.Visited != nil && pi+1 >= len(s.cfg.Prefix) {
